@@ -164,7 +164,8 @@ fn main() {
                 let mut sc = proto::solo::default_cfg(who, r, tier);
                 sc.with_votes = t & 1 != 0;
                 sc.with_timeouts = t & 2 != 0;
-                sc.stale_variants = k != 0;
+                sc.stale_variants = k & 1 != 0;
+                sc.with_payload = k & 2 != 0;
                 if let Some(d) = args.get(9).and_then(|x| x.parse().ok()) {
                     sc.max_depth = d;
                 }
